@@ -16,7 +16,7 @@ theorem slice_drop (s : List α) (i : Int) (h0 : 0 ≤ i) (h1 : i ≤ s.length) 
   simp only [List.length_drop]
   omega
 
-set_option maxHeartbeats 1000000 in
+
 /-- All passes of `compose`: with fuel `len(a) + len(b) + 1` (and `m + n + 2` rounds per pass) the search neither
 panics nor runs out of fuel, and the raw edits it records account for exactly the two sequences. -/
 theorem passes_spec (routeSize size : Nat) (hrs : 1 ≤ routeSize) (reverse : Bool) (fuel : Nat) :
